@@ -184,10 +184,13 @@ func ValidateCounterpartyID(id string, protocol ProtocolID) error {
 
 // isInteger returns true if the string can be converted to
 // an integer, false otherwise.
+// isInteger reports whether s is the canonical decimal form of a 32-bit domain, which is the
+// only form under which transfers are matched and recorded: no sign, no leading zeros and
+// no value above the maximum uint32.
 func isInteger(s string) bool {
-	_, err := strconv.Atoi(s)
+	v, err := strconv.ParseUint(s, 10, 32)
 
-	return err == nil
+	return err == nil && strconv.FormatUint(v, 10) == s
 }
 
 // ID generates an internal identifier for a tuple (bridge protocol, chain).
